@@ -28,6 +28,10 @@ pub enum Op {
 
 #[derive(Clone, Debug, Serialize, Deserialize)]
 pub struct Trace {
+    /// element type is zero-sized (all values carry no data; equality still follows the relation on a
+    /// thread-local "current class" so NaN-like / always-equal behaviours are possible)
+    #[serde(default)]
+    pub zst: bool,
     pub relation: Relation,
     /// fault: the k-th evaluation of `==` (1-based, counted over the whole run) unwinds
     pub unwind_at: Option<u32>,
@@ -76,6 +80,92 @@ impl PartialEq for V {
 
 const SENTINEL_CLASS: u32 = 1_000_000;
 
+/// zero-sized element: every value is indistinguishable; `==` is decided per run (always / never equal)
+#[derive(Debug)]
+struct Z;
+
+thread_local! {
+    static Z_EQUAL: Cell<bool> = const { Cell::new(true) };
+}
+
+impl PartialEq for Z {
+    fn eq(&self, _other: &Z) -> bool {
+        Z_EQUAL.with(|z| z.get())
+    }
+}
+
+fn execute_zst(t: &Trace, cov: &mut Cov) -> RunOut {
+    // NaN-like relation => never equal; anything else => always equal
+    let never = matches!(t.relation, Relation::NanLike(_));
+    Z_EQUAL.with(|z| z.set(!never));
+    let mut st: Storage<Z> = Storage::new();
+    let mut count: u32 = 0;
+    let mut h = AbsHash::new();
+    let mut viol = None;
+    let mut seen: Vec<u32> = vec![];
+    for (step, op) in t.ops.iter().enumerate() {
+        cov.hit("steps");
+        match op {
+            Op::Append(_) => {
+                let tok = match guarded(|| st.append(Z)) {
+                    Ok(t) => t,
+                    Err(pi) => {
+                        viol = Some(Violation::new("C19.append.panic", "op=append zero-sized", step, pi.detail()));
+                        break;
+                    }
+                };
+                if tok.index() != count || seen.contains(&tok.index()) {
+                    viol = Some(Violation::new(
+                        "C19.append.dense-index",
+                        "op=append zero-sized",
+                        step,
+                        format!("append #{} of a zero-sized value returned index {} (expected a new token {})", count + 1, tok.index(), count),
+                    ));
+                    break;
+                }
+                seen.push(tok.index());
+                count += 1;
+                h.push(1, 0);
+            }
+            Op::Fetch(_) => {
+                let tok = match guarded(|| st.fetch_or_append(Z)) {
+                    Ok(t) => t,
+                    Err(pi) => {
+                        viol = Some(Violation::new("C19.fetch.panic", "op=fetch_or_append zero-sized", step, pi.detail()));
+                        break;
+                    }
+                };
+                let expect = if !never && count > 0 { 0 } else { count };
+                if tok.index() != expect {
+                    viol = Some(Violation::new(
+                        "C19.fetch.first-match",
+                        "op=fetch_or_append zero-sized",
+                        step,
+                        format!("fetch_or_append of a zero-sized value (equality: {}) returned index {}, expected {}", if never { "never" } else { "always" }, tok.index(), expect),
+                    ));
+                    break;
+                }
+                if expect == count {
+                    count += 1;
+                    h.push(2, 0);
+                } else {
+                    h.push(2, 1);
+                }
+            }
+            Op::Lookup(_) => {
+                h.push(3, 0);
+            }
+        }
+        cov.triple(9, 1, 0);
+    }
+    cov.hit("reached.zero_sized_element_type");
+    RunOut {
+        violation: viol,
+        abs_hash: h.0 ^ 0x5a5a,
+        nontrivial: count >= 3,
+    }
+}
+
 pub struct C19;
 
 impl Property for C19 {
@@ -116,10 +206,14 @@ impl Property for C19 {
         } else {
             None
         };
-        Trace { relation, unwind_at, ops }
+        let zst = rng.chance(1, 16);
+        Trace { zst, relation, unwind_at: if zst { None } else { unwind_at }, ops }
     }
 
     fn execute(t: &Trace, cov: &mut Cov) -> RunOut {
+        if t.zst {
+            return execute_zst(t, cov);
+        }
         let (kind, mask) = match t.relation {
             Relation::ByClass => (0u8, 0),
             Relation::NanLike(m) => (1, m),
